@@ -113,8 +113,9 @@ def main(tier):
         rule="(R) tree depth x start method x 2-3 tracker deaths, 2 end-of-life orderings, on "
              "real processes; (Q) 6 ensure_running configurations over a fake os; all 2-request "
              "histories over the C11 alphabet for loop survival; every case distinct")
-    rep.assumptions = ["signal delivery to the tracker is tested while it is idle; delivery during "
-                       "its start-up is not enumerated by this check"]
+    rep.assumptions = ["signals are delivered to an idle tracker and at three named points of its "
+                       "start-up (paused there through the LOKY_VERIF hooks); finer delivery "
+                       "instants are not enumerated"]
     code = rep.finish()
     print(f"[C12] tier={tier} q={nq} loop_histories={nb} real_cases={r['cases']} "
           f"violations={len(rep.violations)}")
